@@ -212,6 +212,10 @@ func runC14(e *env) {
 	// the recorded finding (data with GET / DELETE) is shown by this file only
 	specs = append(specs, &modSpec{Name: "axios-get-with-body", ModPath: "example.com/org/api", Target: "routes.go", Class: "axios-data-argument-with-get-or-delete",
 		Files: []modFile{{"routes.go", "package main\n\nimport \"example.com/org/api/echo\"\n\ntype Params struct {\n\tA int\n}\n\ntype controller struct{}\n\nfunc (ct controller) search(c echo.Context) error {\n\tvar in Params\n\tif err := c.Bind(&in); err != nil {\n\t\treturn err\n\t}\n\tq := c.QueryParam(\"q\")\n\t_ = q\n\tvar out []int\n\treturn c.JSON(200, out)\n}\n\nfunc (ct controller) remove(c echo.Context) error {\n\tv := c.FormValue(\"fv\")\n\t_ = v\n\treturn nil\n}\n\nfunc routes(e *echo.Echo, ct *controller) {\n\te.GET(\"/search\", ct.search)\n\te.DELETE(\"/remove\", ct.remove)\n}\n"}, {"echo/echo.go", echoStub}}})
+	if m := repoFixture("repo-httpapi-routes", "analysis/httpapi/test/routes.go"); m != nil {
+		m.Class = "axios-data-argument-with-get-or-delete" // its handle1 is a GET binding a body
+		specs = append(specs, m)
+	}
 	routesAvoidGetWithData = true
 	for i := 0; i < n; i++ {
 		m, _ := synthRoutes(e.r, i, false)
@@ -274,9 +278,19 @@ func runC14(e *env) {
 		} else if o.Axios.Outcome == "crash" {
 			e.m.fail(oracleFailure{What: "GenerateAxios dies with a runtime error: " + o.Axios.Msg, Input: spec})
 		}
-		cases = append(cases, fmt.Sprintf("{| c14_endpoints := %s;\n c14_methods := %s;\n c14_mentioned := %s;\n c14_declared := %s |}", coqListNL(eps), methods, coqStrList(mentioned), coqStrList(declared)))
+		mkCase := func(mode int) string {
+			return fmt.Sprintf("{| c14_endpoints := %s;\n c14_methods := %s;\n c14_mentioned := %s;\n c14_declared := %s;\n c14_mode := %d |}", coqListNL(eps), methods, coqStrList(mentioned), coqStrList(declared), mode)
+		}
+		if cls != "" {
+			// evaluated twice: everything but the recorded finding (reported), then the finding alone (known)
+			cases = append(cases, mkCase(1))
+			inputs = append(inputs, map[string]interface{}{"module": spec, "endpoints": o.Endpoints, "methods": ms, "axios": o.Axios.Outcome + " " + o.Axios.Msg, "class": ""})
+			cases = append(cases, mkCase(2))
+		} else {
+			cases = append(cases, mkCase(0))
+		}
 		inputs = append(inputs, map[string]interface{}{"module": spec, "endpoints": o.Endpoints, "methods": ms, "axios": o.Axios.Outcome + " " + o.Axios.Msg, "class": cls})
-		if len(cases) == 10 {
+		if len(cases) >= 10 {
 			e.writeCases2(fmt.Sprintf("cases_C14_%d", len(e.m.CaseFiles)), "From Coq Require Import List String.\nFrom GM Require Import Base.Hex Model.Http Model.Axios Corr.Check_C14.\nImport ListNotations.\nLocal Open Scope string_scope.\n", "mismatches", "prop_failures", cases, inputs)
 			cases, inputs = nil, nil
 		}
